@@ -127,6 +127,11 @@ func roundHelper(f float64, mode int, args []any) float64 {
 			return f
 		}
 	}
+	if prec > 0 && f == math.Trunc(f) {
+		// An integral value (or ±Inf) is already rounded at any number of decimals;
+		// the scaled product below would overflow or lose digits for large magnitudes.
+		return f
+	}
 	switch mode {
 	case round:
 		return math.Round(f)
